@@ -24,6 +24,7 @@ import (
 	"sort"
 	"strings"
 	"sync"
+	"sync/atomic"
 	"testing"
 	"time"
 
@@ -93,6 +94,9 @@ type veEnv struct {
 	sentEarly int
 	vanished  int
 	ctl       *verifos.Controller
+	swapName  string
+	swapSize  int64
+	swapFn    func()
 }
 
 func veMD5(b []byte) string { return fmt.Sprintf("%x", md5.Sum(b)) }
@@ -270,6 +274,19 @@ func (e *veEnv) transmit(p sts.Payload) (int, error) {
 			return 0, errors.New("connection cut")
 		}
 	}
+	if e.swapFn != nil {
+		e.mu.Lock()
+		fn := e.swapFn
+		due := e.swapName != "" && e.sentBytes[e.swapName] >= e.swapSize
+		if due {
+			e.swapFn = nil
+		}
+		e.mu.Unlock()
+		if due {
+			fn() // the source is replaced between the last byte going out and the answer coming back
+			e.ev("swap", e.swapName, "same size, mtime +400ms")
+		}
+	}
 	if f.kind == "lost" {
 		e.ev("txret", "err", "answer lost")
 		return 0, errors.New("answer lost")
@@ -322,6 +339,9 @@ func (e *veEnv) validate(sent []sts.Pollable) ([]sts.Polled, error) {
 		e.pollFault = e.pollFault[1:]
 	}
 	e.mu.Unlock()
+	if pf == "slow" {
+		time.Sleep(1300 * time.Millisecond) // the answer takes longer than the idle period of the retry workers
+	}
 	if pf == "err" || !e.st.Ready() {
 		e.ev("poll", "err", "")
 		return nil, errors.New("poll failed")
@@ -381,6 +401,8 @@ type veScenario struct {
 	crashAt   int
 	reuse     bool   // after the first delivery a file is created anew under a used name
 	mutate    string // name of a file rewritten while queued
+	swap      string // name of a file replaced by a same-size version (mtime in the same second) right after its last byte was received
+	scanDelay time.Duration
 	include   string
 	ignore    string
 	hidden    bool
@@ -388,7 +410,11 @@ type veScenario struct {
 }
 
 func veContent(f veFileSpec, version int) []byte {
-	b := make([]byte, f.size+version)
+	n := f.size + version
+	if version >= 100 {
+		n = f.size // a different version of exactly the same size
+	}
+	b := make([]byte, n)
 	for i := range b {
 		b[i] = byte(int(f.seedb) + i*7 + version*13)
 		if b[i] == 0 {
@@ -396,6 +422,13 @@ func veContent(f veFileSpec, version int) []byte {
 		}
 	}
 	return b
+}
+
+func veScanDelay(sc veScenario) time.Duration {
+	if sc.scanDelay > 0 {
+		return sc.scanDelay
+	}
+	return 30 * time.Millisecond
 }
 
 func (e *veEnv) newBroker(sc veScenario) (*Broker, *veStore) {
@@ -425,7 +458,7 @@ func (e *veEnv) newBroker(sc veScenario) (*Broker, *veStore) {
 		Name: "verif", Store: ws, Cache: c, Queue: queue.NewTagged(qtags, tagger, grouper),
 		Recoverer: e.recoverer, BuildPayload: payload.NewBin, Transmitter: e.transmit, TxRecoverer: e.txRecover,
 		Validator: e.validate, Logger: &veSentLog{FileIO: e.slog, e: e}, Tagger: func(string) string { return "" },
-		CacheAge: time.Hour, ScanDelay: 30 * time.Millisecond, Threads: sc.threads,
+		CacheAge: time.Hour, ScanDelay: veScanDelay(sc), Threads: sc.threads,
 		PayloadSize: units.Base2Bytes(sc.payload), StatInterval: time.Hour,
 		PollDelay: 5 * time.Millisecond, PollInterval: 10 * time.Millisecond, PollAttempts: 3, PollMaxCount: 100,
 		Tags: []*FileTag{{Name: "", InOrder: true, Delete: sc.del}}, ErrorBackoff: 0,
@@ -448,6 +481,13 @@ func veRun(tmp string, sc veScenario) string {
 		os.MkdirAll(d, 0o755)
 	}
 	version := map[string]int{}
+	var swapDone int32
+	ver := func(name string) int {
+		if name == sc.swap && sc.swap != "" && atomic.LoadInt32(&swapDone) == 1 {
+			return 100
+		}
+		return version[name]
+	}
 	write := func(f veFileSpec, v int) {
 		p := filepath.Join(e.out, f.name)
 		os.MkdirAll(filepath.Dir(p), 0o755)
@@ -462,6 +502,21 @@ func veRun(tmp string, sc veScenario) string {
 	}
 	for _, f := range sc.files {
 		write(f, 0)
+		if f.name == sc.swap {
+			p := filepath.Join(e.out, f.name)
+			t0 := time.Now().Add(-f.age).Truncate(time.Second).Add(100 * time.Millisecond)
+			os.Chtimes(p, t0, t0)
+			fc := f
+			e.swapName, e.swapSize = f.name, int64(f.size)
+			e.swapFn = func() {
+				tmpf := filepath.Join(e.root, "swap-tmp")
+				os.WriteFile(tmpf, veContent(fc, 100), 0o644)
+				t1 := t0.Add(400 * time.Millisecond)
+				os.Chtimes(tmpf, t1, t1)
+				os.Rename(tmpf, p)
+				atomic.StoreInt32(&swapDone, 1)
+			}
+		}
 	}
 	e.rlog = log.NewFileIO(e.logIn, nil, nil, false)
 	e.st = stage.New("src", e.stageDir, e.finalDir, e.rlog, nil, nil)
@@ -493,7 +548,7 @@ func veRun(tmp string, sc veScenario) string {
 		n := 0
 		for name, f := range eligible {
 			b, err := os.ReadFile(filepath.Join(e.finalDir, name))
-			if err == nil && veMD5(b) == veMD5(veContent(f, version[name])) {
+			if err == nil && veMD5(b) == veMD5(veContent(f, ver(name))) {
 				n++
 			}
 		}
@@ -521,7 +576,7 @@ func veRun(tmp string, sc veScenario) string {
 	reused := false
 
 	limit := 12 * time.Second
-	if sc.profile == "mutate" || sc.profile == "reuse" {
+	if sc.profile == "mutate" || sc.profile == "reuse" || sc.profile == "swap" {
 		limit = 25 * time.Second
 	}
 	phase := func(b0 *Broker) (finished bool, crashed bool) {
@@ -708,7 +763,7 @@ func veRun(tmp string, sc veScenario) string {
 	lost := 0
 	for name, f := range eligible {
 		if _, err := os.Stat(filepath.Join(e.out, name)); err != nil {
-			want := veMD5(veContent(f, version[name]))
+			want := veMD5(veContent(f, ver(name)))
 			if !e.receiverHolds(name, want) {
 				lost++
 			}
@@ -726,7 +781,7 @@ func veRun(tmp string, sc veScenario) string {
 		ok := false
 		for _, f := range sc.files {
 			if f.name == rel {
-				for v := 0; v <= 2; v++ {
+				for _, v := range []int{0, 1, 2, 100} {
 					if veMD5(b) == veMD5(veContent(f, v)) {
 						ok = true
 					}
@@ -817,6 +872,21 @@ func veGen(r *gen.Rand, id string, profile string) veScenario {
 		if r.Chance(1, 3) {
 			sc.faults = append(sc.faults, veFault{kind: kinds[r.Intn(len(kinds))], at: r.Intn(2)})
 		}
+	case "stopfail":
+		// a one-shot run (graceful stop right after start) in which every file fails validation and the
+		// verdicts arrive late: more failed verdicts than the retry channel holds, with nobody left to read it
+		sc.stopKind, sc.stopAt = "graceful", 0
+		sc.threads = 1 + r.Intn(2)
+		for _, n := range names {
+			if !used[n] && len(sc.files) < 2*sc.threads+1+r.Intn(3) {
+				used[n] = true
+				sc.files = append(sc.files, veFileSpec{name: n, size: 1 + r.Intn(60), seedb: byte(1 + r.Intn(200)), age: time.Duration(2+r.Intn(50)) * time.Second, eligible: true})
+			}
+		}
+		for i := 0; i < 60; i++ {
+			sc.faults = append(sc.faults, veFault{kind: "corrupt", at: 0})
+		}
+		sc.pollFault = []string{"slow"}
 	case "crash":
 		sc.crashAt = 1 + r.Intn(45)
 		if r.Chance(1, 3) {
@@ -829,6 +899,14 @@ func veGen(r *gen.Rand, id string, profile string) veScenario {
 		if len(sc.files) > 0 {
 			sc.mutate = sc.files[r.Intn(len(sc.files))].name
 		}
+	case "swap":
+		// replaced by a same-size version within the same second, after the last byte went out and
+		// before the receiver's confirmation can be processed; the scanner is slow enough not to notice first
+		if len(sc.files) > 0 {
+			sc.swap = sc.files[r.Intn(len(sc.files))].name
+		}
+		sc.del = true
+		sc.scanDelay = 400 * time.Millisecond
 	case "eligible":
 		// files that must not be sent: empty, too young, hidden, ignored, not included, lock files
 		sc.minAge = 10 * time.Second
@@ -863,14 +941,14 @@ func TestVerifE2E(t *testing.T) {
 		t.Skip("VERIF_OUT not set")
 	}
 	defer done()
-	log.InitExternal(&mock.Logger{DebugMode: false})
+	log.InitExternal(&mock.Logger{DebugMode: os.Getenv("VERIF_E2E_DEBUG") != ""})
 	tmp := os.Getenv("VERIF_TMP")
 	if tmp == "" {
 		tmp = t.TempDir()
 	}
 	profiles := strings.Split(os.Getenv("VERIF_E2E_PROFILES"), ",")
 	if os.Getenv("VERIF_E2E_PROFILES") == "" {
-		profiles = []string{"plain", "faults", "stop", "crash", "reuse", "mutate", "vanish", "eligible"}
+		profiles = []string{"plain", "faults", "stop", "crash", "reuse", "mutate", "vanish", "eligible", "swap", "stopfail"}
 	}
 	N := gen.EnvInt("VERIF_E2E_N", 12)
 	if gen.Thorough() {
